@@ -848,9 +848,85 @@ def check_dict(case, res, monitor=False):
     return mon
 
 
+def sign_leg(res, rng, n):
+    """the program uses hash-map variables where their signedness matters
+    (ordering comparisons, right shifts): it must see the value Python and
+    the map hold - a negative default, a negative value written by Python,
+    one the program stored itself"""
+    for _ in range(n):
+        fmt = rng.choice("bhiqBHIQ")
+        size = struct.calcsize(fmt)
+        dflt = sx(rng.choice([rng.getrandbits(64), -1, -5,
+                              1 << (8 * size - 1)]), fmt)
+        h = HashMap()
+        m = ArrayMap()
+        ns = {"license": "GPL", "h": h, "m": m,
+              "hv": h.globalVar(fmt, dflt), "hw": h.globalVar(fmt, 0),
+              "inp": m.globalVar("q"), "neg": m.globalVar("B"),
+              "big": m.globalVar("B"), "half": m.globalVar("q"),
+              "neg2": m.globalVar("B"), "mode": m.globalVar("B")}
+
+        def program(self):
+            e = self
+            with e.mode == 1:
+                e.hw = e.inp            # the program stores the value
+            with e.hv < 0:
+                e.neg = 1
+            with e.hv > 5:
+                e.big = 1
+            e.half = e.hv >> 1
+            with e.hw < 0:
+                e.neg2 = 1
+            e.r0 = 2
+            e.exit()
+        ns["program"] = program
+        desc = dict(sign_leg=True, fmt=fmt, default=dflt)
+        with kern.session() as sess:
+            try:
+                e = type("VfSign", (XDP,), ns)()
+                ld = prog.Loaded(e, sess)
+                ld.load()
+            except (OSError, AssembleError):
+                res.count("sign_leg_not_loaded")
+                continue
+            try:
+                for step in range(3):
+                    if step == 1:
+                        v = sx(rng.choice([rng.getrandbits(64), -1, -2]),
+                               fmt)
+                        e.hv = v
+                    elif step == 2:
+                        v = e.hv
+                    else:
+                        v = dflt
+                    w_ = sx(rng.choice([rng.getrandbits(64), -10, -1]), fmt)
+                    e.inp = sx(w_, "q")
+                    e.mode = 1
+                    e.neg = e.big = e.neg2 = 0
+                    ld.run_k(bytes(64))
+                    want = (1 if v < 0 else 0, 1 if v > 5 else 0,
+                            v >> 1, 1 if w_ < 0 else 0)
+                    got = (e.neg, e.big, e.half, e.neg2)
+                    res.case([desc, step, v, w_], nontrivial=True)
+                    res.count("sign_leg_runs")
+                    if v < 0 or w_ < 0:
+                        res.count("sign_leg_runs_with_a_negative_value")
+                    if got != want:
+                        res.violation(
+                            "unexplained:hash-variable-signedness",
+                            f"hash variable ({fmt}) holds {v} (Python reads "
+                            f"{e.hv}), stored by the program {w_}: program "
+                            f"sees (negative, > 5, >> 1, stored negative) = "
+                            f"{got}, expected {want}", case=desc)
+                        break
+            finally:
+                ld.close()
+
+
 def run_shard(params):
     res = Result()
     rng = random.Random(params["seed"] * 100109 + params["shard"])
+    sign_leg(res, random.Random(rng.getrandbits(32)), 6)
     for i in range(params["nh"]):
         case = gen_hash_case(rng)
         try:
